@@ -18,6 +18,33 @@ CFG = {
     'bodies_prelude': '#include "externs.h"\n',
     'globals': {'dec_constant_dom': '(*(const zw_cdom *)&g_doms[0])'},
 }
+# ---- second unit: ordering of stacks (stack.cc), used by the closure operators' seen-set -------
+UP = r'std::unique_ptr<(zw_)?value(, std::default_delete<(zw_)?value>)?>'
+VEC = r'std::vector<' + UP + r'(, std::allocator<' + UP + r'>)?>'
+IT = r'__gnu_cxx::__normal_iterator<(const )?' + UP + r' \*, ' + VEC + r'>'
+STK_CFG = {
+    'names': {'(anonymous namespace)::compare_stack': 'compare_stack', 'stack::operator<': 'stack_lt', 'stack::operator==': 'stack_eq',
+              'zw_value::get_type': 'value_get_type', 'value_type::operator<': 'value_type_lt',
+              '_ZN10value_typeC1ERKS_': 'value_type_copy'},
+    'types': {VEC: 'vecp', UP: 'zw_value *', IT: 'zw_value *const *', r'selector::sel_t': 'uint32_t',
+              r'std::nullptr_t': 'void *'},
+    'types_are_records': {VEC: True},
+    'record_ctypes': ['vecp'],
+    'types_prelude': '#include "../c11/vecp_model.h"\n',
+    'bodies_prelude': '#include "stk_externs.h"\n',
+    'virtual': {'zw_value::cmp': 'value_cmp_model'},
+    'extern': {
+        VEC + r'::size': 'VECP_SIZE', VEC + r'::end': 'VECP_END', VEC + r'::begin': 'VECP_BEGIN',
+        IT + r'::operator\+\+': 'IT_PREINC', IT + r'::operator\*': {'c': 'IT_DEREF', 'by_value': True},
+        r'__gnu_cxx::operator!=': {'c': 'IT_NE', 'by_value': True}, r'__gnu_cxx::operator==': {'c': 'IT_EQ', 'by_value': True},
+        r'std::operator==\|.*nullptr_t\).*': {'c': 'UPTR_IS_NULL', 'by_value': True},
+        r'std::operator!=\|.*nullptr_t\).*': {'c': 'UPTR_NOT_NULL', 'by_value': True},
+        UP + r'::operator->': {'c': 'UPTR_ARROW', 'by_value': True}, UP + r'::operator\*': {'c': 'UPTR_ARROW', 'by_value': True},
+        r'abort': 'verif_abort',
+    },
+}
+STK_ROOTS = ['(anonymous namespace)::compare_stack', 'stack::operator<', 'stack::operator==']
+
 ROOTS = ['constant::operator<', 'constant::operator>', 'constant::operator<=', 'constant::operator>=',
          'constant::operator==', 'constant::operator!=']
 INPUTS = ['a_u', 'a_s', 'a_d', 'b_u', 'b_s', 'b_d', 'c_u', 'c_s', 'c_d']
@@ -35,6 +62,14 @@ def jobs(tier):
         add(ax, 'h_' + ax, kind='proof',
             note='order axiom over three symbolic constants on the extracted body (loop-free: complete); mpz operator< by its C08 contract')
     add('control', 'h_control', defines=['VERIF_CONTROL'], kind='control', expect='fail')
+    ssrc = [os.path.join(HERE, 'stk_harness.c'), os.path.join(OUT, 'stk_bodies.c')]
+    n = 2 if tier == 'quick' else 3
+    for h in ('stack_order', 'stack_equal_means'):
+        J.append(Job('bounded_%s_n%d' % (h, n), ssrc, 'hb_' + h, includes=inc, defines=['STK_N=%d' % n], kind='bounded',
+                     unwind=n + 2, timeout=1500, cbmc_args=['--object-bits', '10'],
+                     note='bounded: stacks of at most %d slots; element cmp by its model (type code + abstract key)' % n))
+    J.append(Job('stack_control', ssrc, 'hb_control', includes=inc, defines=['STK_N=2', 'VERIF_CONTROL'], kind='control',
+                 expect='fail', unwind=4, timeout=300, cbmc_args=['--object-bits', '10']))
     return J
 
 
@@ -44,7 +79,8 @@ ASSUMPTIONS = [
     'virtual safe_arith() is a function of the domain object; virtual most_enclosing(v) is a function of the domain object and the value (uninterpreted functions)',
     'the decimal domain is arithmetic and most_enclosing of a named-constant domain is a named-constant domain (MODEL_OK; unverified property of the virtual implementations)',
     'domain objects modelled as elements of one array so that comparing their addresses is defined; at most 4 distinct domains + null among three constants',
-    'SLICE: per-type cmp of strings/sequences/DIEs/address sets, comparison_result and compare_stack are NOT covered',
+    'compare_stack (bounded jobs): the virtual value::cmp is modelled (different types fail, one type totally ordered by an abstract key); std::vector<unique_ptr<value>> by props/c11/vecp_model.h',
+    'SLICE: per-type cmp of strings/sequences/DIEs/address sets and comparison_result are NOT covered',
 ]
 EXPLANATION = 'constant::operator< and derived operators only; see DESIGN.md section 4 C09.'
 
@@ -55,7 +91,10 @@ def spec_files():
 
 def prepare(tier):
     lw = vlib.extract('cst', 'libzwerg/constant.cc', CFG, ROOTS, OUT)
-    return {'unit': 'libzwerg/constant.cc', 'functions': lw.report['functions'],
+    sw = vlib.extract('stk', 'libzwerg/stack.cc', STK_CFG, STK_ROOTS, OUT)
+    lw.report['functions'] += sw.report['functions']
+    lw.report['virtual_calls'] += sw.report['virtual_calls']
+    return {'units': ['libzwerg/constant.cc', 'libzwerg/stack.cc'], 'functions': lw.report['functions'],
             'virtual_calls_modelled': lw.report['virtual_calls'], 'lambdas_inlined': lw.report['lambdas_inlined']}
 
 
